@@ -874,6 +874,10 @@ func enumShape(tier string, s *tbin.Shape, yield func(core.Case) bool) bool {
 			{"unknown-object-before", "shape/unknown-member", `{"zz":{"a":[1,{"b":null}],"c":"}"},"f1":` + val + `}`},
 			{"unknown-array-after", "shape/unknown-member", `{"f1":` + val + `,"zz":[1,"x",[],{}]}`},
 			{"unknown-bool-before", "shape/unknown-member", `{"zz":true,"f1":` + val + `}`},
+			// strings inside skipped containers that end in runs of backslashes (even runs close the string, odd
+			// runs escape the quote) and that contain brackets
+			{"unknown-object-backslashes-before", "shape/unknown-member", `{"zz":{"dir":"C:\\","p":"a\\\\","q":"x\\\"}","r":["\\",{"s":"]\\"}]},"f1":` + val + `}`},
+			{"unknown-array-backslashes-after", "shape/unknown-member", `{"f1":` + val + `,"zz":["\\","\\\\","\\\"]","{\\"]}`},
 		}
 		for _, vr := range variants {
 			d := &j2tDoc{Fam: "shape:" + cls + "/" + vr.name, Trig: vr.trig, IDL: idl, Doc: vr.doc, Oracle: unk}
